@@ -105,13 +105,29 @@ def rule_message_site(prog):
     for kind, want in (("IfStatement", "IfConditionMustBeBoolean"), ("WhileStatement", "WhileConditionMustBeBoolean")):
         bs = [b for b in c.bodies if b["d"] == MESSAGE_SITE[want]]
         if bs:
-            # guarded by `condition_type != DataType::Bool`
-            ok = False
-            for iff in hir.nodes(bs[0]["body"], "If"):
-                cond = hir.strip(iff["cond"])
-                if cond.get("k") == "Binary" and cond["op"] == "!=" and any(p["res"].get("ctor_of", "").endswith("DataType::Bool") for p in hir.nodes(cond, "Path")):
-                    if any(last(p["res"].get("ctor_of", "")) == want for p in hir.nodes(iff["then"], "Path")):
-                        ok = True
+            # guarded by `condition_type != DataType::Bool` (in the function itself, or in a local helper the message is handed to)
+            ok = None
+
+            def bool_guards(root):
+                res = []
+                for iff in hir.nodes(root, "If"):
+                    cond = hir.strip(iff["cond"])
+                    if cond.get("k") == "Binary" and cond["op"] in ("!=", "==") and \
+                            any(p["res"].get("ctor_of", "").endswith("DataType::Bool") for p in hir.nodes(cond, "Path")):
+                        res.append((cond["op"], iff))
+                return res
+
+            for op, iff in bool_guards(bs[0]["body"]):
+                if any(last(p["res"].get("ctor_of", "")) == want for p in hir.nodes(iff["then"], "Path")):
+                    ok = op == "!="
+            if ok is None:
+                for call in hir.nodes(bs[0]["body"], "Call"):
+                    if any(last(p["res"].get("ctor_of", "")) == want for a in call["args"] for p in hir.nodes(a, "Path")):
+                        hb = hir.local_callee_body(prog, call)
+                        if hb is not None:
+                            for op, iff in bool_guards(hb["body"]):
+                                if any((hir.callee(x) or "").endswith("append_error") for x in hir.nodes(iff["then"]) if x.get("k") in ("Call", "MethodCall")):
+                                    ok = op == "!="
             n += 1
             out.add(bs[0]["d"], "%s is reported exactly when the condition's type is not boolean" % want, ok, c.loc(bs[0]["sp"]), "", ("arm",))
     if n < 27:
@@ -309,15 +325,19 @@ def rule_update_order(prog):
         out.missing("AnalyzedSource::update")
         return out
     b = bs[0]
-    clos = [n for n in hir.nodes(b["body"], "Closure")]
-    if not clos:
-        out.missing("fold closure in AnalyzedSource::update")
-        return out
-    blk = hir.strip(clos[0]["body"])
-    blk = blk["b"] if blk.get("k") == "BlockExpr" else None
+    blk = None
+    for cand in hir.nodes(b["body"], "Block"):
+        direct = cand["stmts"] + ([cand["expr"]] if cand.get("expr") else [])
+        for st in direct:
+            e = st.get("init") if st.get("k") == "Let" else st.get("e", st)
+            if e is not None and any(n.get("k") == "Call" and (hir.callee(n) or "").endswith("lexer::update") for n in hir.nodes(e)) \
+                    and not any(x.get("k") == "Block" and x is not cand and any(
+                        n.get("k") == "Call" and (hir.callee(n) or "").endswith("lexer::update") for n in hir.nodes(x)) for x in hir.nodes(e)):
+                blk = cand
     if blk is None:
-        out.missing("fold closure block")
+        out.missing("per-change step (block containing lexer::update) in AnalyzedSource::update")
         return out
+    step = {"body": {"k": "BlockExpr", "b": blk}}
     seq = blk["stmts"] + ([blk["expr"]] if blk.get("expr") else [])
 
     def idx(pred):
@@ -334,15 +354,15 @@ def rule_update_order(prog):
     out.add("AnalyzedSource::update", "edit text -> update tokens -> store tokens -> update AST, per change", bool(ok), c.loc(b["sp"]),
             "statement indices: replace_range %s, lexer::update %s, tokens assigned %s, parser::update %s" % (i_rep, i_lex, i_tok, i_par))
     # the same change feeds replace_range and lexer::update; parser gets the TokenChange returned by that lexer call
-    lex = [n for n in hir.nodes(clos[0]["body"], "Call") if (hir.callee(n) or "").endswith("lexer::update")]
-    rep = [n for n in hir.nodes(clos[0]["body"], "MethodCall") if n["m"] == "replace_range"]
-    par = [n for n in hir.nodes(clos[0]["body"], "Call") if (hir.callee(n) or "").endswith("parser::update")]
+    lex = [n for n in hir.nodes(blk, "Call") if (hir.callee(n) or "").endswith("lexer::update")]
+    rep = [n for n in hir.nodes(blk, "MethodCall") if n["m"] == "replace_range"]
+    par = [n for n in hir.nodes(blk, "Call") if (hir.callee(n) or "").endswith("parser::update")]
     ok = False
     if lex and rep and par:
         ch_lex = (place(lex[0]["args"][2]) or "").split(".")[0]
         ch_rep = (place(hir.strip(rep[0]["args"][0]).get("recv", rep[0]["args"][0])) or "").split(".")[0]
         tc_bind = None
-        for l in hir.nodes(clos[0]["body"], "Let"):
+        for l in hir.nodes(blk, "Let"):
             if l.get("init") is not None and hir.strip(l["init"]) is lex[0]:
                 bs_ = list(hir.pat_bindings(l["pat"]))
                 if len(bs_) == 2:
